@@ -1,0 +1,257 @@
+//! Tracing, controllable replacements for the `parking_lot` lock types used
+//! by `swarm.rs`. Compiled only with the `verif` feature.
+//!
+//! Without an installed controller the types are plain pass-throughs. With
+//! one, every acquisition first reports a yield point and is then attempted
+//! with the non-blocking `try_*` calls, so that a scheduler that lets one
+//! thread run at a time can explore interleavings at lock-acquisition
+//! granularity and observe "would block" instead of hanging.
+
+use std::ops::{Deref, DerefMut};
+use std::sync::atomic::{AtomicU64, Ordering};
+use std::sync::{Arc, OnceLock, RwLock as StdRwLock};
+
+#[derive(Clone, Copy, Debug, PartialEq, Eq)]
+pub enum Mode {
+    Read,
+    Write,
+    UpgradableRead,
+    Upgrade,
+}
+
+pub trait Controller: Send + Sync {
+    /// Called before every acquisition attempt. May park the calling thread.
+    fn yield_point(&self, lock: u64, mode: Mode);
+    /// The attempt failed because the lock is held. Parks the calling
+    /// thread until it makes sense to try again.
+    fn blocked(&self, lock: u64, mode: Mode);
+    /// Called after a successful acquisition
+    fn acquired(&self, lock: u64, mode: Mode);
+    /// Called just before a lock is released
+    fn releasing(&self, lock: u64, mode: Mode);
+}
+
+static NEXT_LOCK_ID: AtomicU64 = AtomicU64::new(0);
+
+fn controller_slot() -> &'static StdRwLock<Option<Arc<dyn Controller>>> {
+    static SLOT: OnceLock<StdRwLock<Option<Arc<dyn Controller>>>> = OnceLock::new();
+
+    SLOT.get_or_init(|| StdRwLock::new(None))
+}
+
+/// Install (or remove) the process-wide controller
+pub fn set_controller(controller: Option<Arc<dyn Controller>>) {
+    *controller_slot().write().unwrap() = controller;
+}
+
+/// Restart lock numbering (call before creating the `TorrentMaps` under test)
+pub fn reset_lock_ids() {
+    NEXT_LOCK_ID.store(0, Ordering::SeqCst);
+}
+
+fn controller() -> Option<Arc<dyn Controller>> {
+    controller_slot().read().unwrap().clone()
+}
+
+pub struct RwLock<T> {
+    id: u64,
+    inner: parking_lot::RwLock<T>,
+}
+
+impl<T: Default> Default for RwLock<T> {
+    fn default() -> Self {
+        Self {
+            id: NEXT_LOCK_ID.fetch_add(1, Ordering::SeqCst),
+            inner: Default::default(),
+        }
+    }
+}
+
+impl<T> RwLock<T> {
+    pub fn verif_id(&self) -> u64 {
+        self.id
+    }
+
+    pub fn read(&self) -> RwLockReadGuard<'_, T> {
+        match controller() {
+            None => RwLockReadGuard {
+                id: self.id,
+                inner: Some(self.inner.read()),
+            },
+            Some(c) => loop {
+                c.yield_point(self.id, Mode::Read);
+
+                if let Some(guard) = self.inner.try_read() {
+                    c.acquired(self.id, Mode::Read);
+
+                    return RwLockReadGuard {
+                        id: self.id,
+                        inner: Some(guard),
+                    };
+                }
+
+                c.blocked(self.id, Mode::Read);
+            },
+        }
+    }
+
+    pub fn write(&self) -> RwLockWriteGuard<'_, T> {
+        match controller() {
+            None => RwLockWriteGuard {
+                id: self.id,
+                inner: Some(self.inner.write()),
+            },
+            Some(c) => loop {
+                c.yield_point(self.id, Mode::Write);
+
+                if let Some(guard) = self.inner.try_write() {
+                    c.acquired(self.id, Mode::Write);
+
+                    return RwLockWriteGuard {
+                        id: self.id,
+                        inner: Some(guard),
+                    };
+                }
+
+                c.blocked(self.id, Mode::Write);
+            },
+        }
+    }
+
+    pub fn upgradable_read(&self) -> RwLockUpgradableReadGuard<'_, T> {
+        match controller() {
+            None => RwLockUpgradableReadGuard {
+                id: self.id,
+                inner: Some(self.inner.upgradable_read()),
+            },
+            Some(c) => loop {
+                c.yield_point(self.id, Mode::UpgradableRead);
+
+                if let Some(guard) = self.inner.try_upgradable_read() {
+                    c.acquired(self.id, Mode::UpgradableRead);
+
+                    return RwLockUpgradableReadGuard {
+                        id: self.id,
+                        inner: Some(guard),
+                    };
+                }
+
+                c.blocked(self.id, Mode::UpgradableRead);
+            },
+        }
+    }
+}
+
+pub struct RwLockReadGuard<'a, T> {
+    id: u64,
+    inner: Option<parking_lot::RwLockReadGuard<'a, T>>,
+}
+
+impl<T> Deref for RwLockReadGuard<'_, T> {
+    type Target = T;
+
+    fn deref(&self) -> &T {
+        self.inner.as_ref().unwrap()
+    }
+}
+
+impl<T> Drop for RwLockReadGuard<'_, T> {
+    fn drop(&mut self) {
+        if let Some(guard) = self.inner.take() {
+            if let Some(c) = controller() {
+                c.releasing(self.id, Mode::Read);
+            }
+
+            drop(guard);
+        }
+    }
+}
+
+pub struct RwLockWriteGuard<'a, T> {
+    id: u64,
+    inner: Option<parking_lot::RwLockWriteGuard<'a, T>>,
+}
+
+impl<T> Deref for RwLockWriteGuard<'_, T> {
+    type Target = T;
+
+    fn deref(&self) -> &T {
+        self.inner.as_ref().unwrap()
+    }
+}
+
+impl<T> DerefMut for RwLockWriteGuard<'_, T> {
+    fn deref_mut(&mut self) -> &mut T {
+        self.inner.as_mut().unwrap()
+    }
+}
+
+impl<T> Drop for RwLockWriteGuard<'_, T> {
+    fn drop(&mut self) {
+        if let Some(guard) = self.inner.take() {
+            if let Some(c) = controller() {
+                c.releasing(self.id, Mode::Write);
+            }
+
+            drop(guard);
+        }
+    }
+}
+
+pub struct RwLockUpgradableReadGuard<'a, T> {
+    id: u64,
+    inner: Option<parking_lot::RwLockUpgradableReadGuard<'a, T>>,
+}
+
+impl<'a, T> RwLockUpgradableReadGuard<'a, T> {
+    pub fn upgrade(mut s: Self) -> RwLockWriteGuard<'a, T> {
+        let id = s.id;
+        let mut guard = s.inner.take().unwrap();
+
+        match controller() {
+            None => RwLockWriteGuard {
+                id,
+                inner: Some(parking_lot::RwLockUpgradableReadGuard::upgrade(guard)),
+            },
+            Some(c) => loop {
+                c.yield_point(id, Mode::Upgrade);
+
+                match parking_lot::RwLockUpgradableReadGuard::try_upgrade(guard) {
+                    Ok(write_guard) => {
+                        c.acquired(id, Mode::Upgrade);
+
+                        return RwLockWriteGuard {
+                            id,
+                            inner: Some(write_guard),
+                        };
+                    }
+                    Err(upgradable_guard) => {
+                        guard = upgradable_guard;
+
+                        c.blocked(id, Mode::Upgrade);
+                    }
+                }
+            },
+        }
+    }
+}
+
+impl<T> Deref for RwLockUpgradableReadGuard<'_, T> {
+    type Target = T;
+
+    fn deref(&self) -> &T {
+        self.inner.as_ref().unwrap()
+    }
+}
+
+impl<T> Drop for RwLockUpgradableReadGuard<'_, T> {
+    fn drop(&mut self) {
+        if let Some(guard) = self.inner.take() {
+            if let Some(c) = controller() {
+                c.releasing(self.id, Mode::UpgradableRead);
+            }
+
+            drop(guard);
+        }
+    }
+}
